@@ -6,6 +6,9 @@ from props import _serde as S
 LEVEL = "proof"
 HARNESSES = [("h_serde", "asan"), ("h_serde", "rel")]
 ASSUMPTIONS = [
+    "theorems about decoders that contain an Address quantify over the external address normalisation addr_norm and carry "
+    "the premise addr_norm_sound (type byte, at most VBK_ADDRESS_SIZE bytes, idempotent); the driver instantiates it with "
+    "the real base58/base59 + sha256 logic",
     "memory safety of the compiled code is OBSERVED (ASan+UBSan build of the library and harness, exactly-sized heap "
     "buffers), not proved; the theorems are about the model's explicit access discipline (Oob / BadAlloc outcomes)",
     "the progpow kernel is never entered in the UBSan-instrumented run (VERIF_NO_PROGPOW=1): its keccak_f800 left-shifts "
@@ -69,6 +72,9 @@ def gen_cases(ctx):
             j[0] += 1
     nval = {"quick": 22, "thorough": 120}[ctx.tier]
     gov = S.Gen(r.fork(), big=False, over=True)
+    for _ in range(8 if quick else 100):
+        add("address", "type3-wire-of-standard-address",
+            S.standard_address_as_type3_wire(S.address_from_pubkey(r.bytes(r.range(0, 40)))))
     for t in S.TYPES:
         heavy = t in ("popdata", "vtb", "vbkpoptx")
         # random bytes, with plausible first bytes
